@@ -303,6 +303,58 @@ def sys_replay_frame(cex):
     return (not sees) and inregion, f"viewer at (10,0,0) facing 90deg: canSee((5,0,0))={sees}, visibleRegion contains it={inregion}"
 
 
+def g_object_targets():
+    """Concrete auxiliary check of the object branch of canSee (vectorised numpy + trimesh ray casting, outside the
+    reach of symbolic execution) on configurations with an analytic answer: a long wall abeam of the viewer whose
+    in-angle part starts at d / sin(alpha/2); boxes ahead / behind / beyond range; an occluder between or beside."""
+    import math
+
+    from scenic.core.object_types import Object
+    from scenic.core.vectors import Orientation, Vector
+
+    bad, cases = [], 0
+
+    def local(P, yaw, x, y, z=0):
+        c, s = math.cos(yaw), math.sin(yaw)
+        return Vector(P.x + c * x - s * y, P.y + s * x + c * y, P.z + z)
+
+    def obj(pos, yaw, w, l, h, **kw):
+        return Object._with(position=pos, yaw=yaw, width=w, length=l, height=h, **kw)
+
+    def expect(tag, got, want):
+        nonlocal cases
+        cases += 1
+        if bool(got) != want and len(bad) < 6:
+            bad.append(f"{tag}: canSee = {bool(got)}, expected {want}")
+
+    for P, yaw in ((Vector(100, 50, 0), math.radians(37)), (Vector(-3, 7, 1), math.radians(200)), (Vector(0, 0, 0), 0.0)):
+        for alpha in (math.radians(60), math.radians(90)):
+            for d in (5.0, 3.0):
+                start = d / math.sin(alpha / 2)  # distance at which the wall enters the view angles
+                for factor, want in ((0.85, False), (1.4, True)):
+                    D = start * factor
+                    if D <= d + 0.2:  # keep the closest point of the wall within the visible distance
+                        continue
+                    ego = obj(P, yaw, 1, 1, 1, viewAngles=(alpha, math.radians(60)), visibleDistance=D)
+                    wall = obj(local(P, yaw, d + 0.5, 19), yaw, 1, 42, 4)
+                    expect(f"wall {d} m abeam, view angle {math.degrees(alpha):.0f}, visibleDistance {D:.2f} (in-angle part from {start:.2f})",
+                           ego.canSee(wall, occludingObjects=()), want)
+        ego = obj(P, yaw, 1, 1, 1, viewAngles=(math.radians(90), math.radians(60)), visibleDistance=20)
+        ahead = obj(local(P, yaw, 0, 10), yaw, 2, 2, 2)
+        behind = obj(local(P, yaw, 0, -10), yaw, 2, 2, 2)
+        far = obj(local(P, yaw, 0, 30), yaw, 2, 2, 2)
+        side = obj(local(P, yaw, 12, 2), yaw, 2, 2, 2)
+        blocker = obj(local(P, yaw, 0, 5), yaw, 6, 0.5, 6)
+        beside = obj(local(P, yaw, 8, 5), yaw, 2, 0.5, 6)
+        expect("box 10 m ahead", ego.canSee(ahead, occludingObjects=()), True)
+        expect("box 10 m behind", ego.canSee(behind, occludingObjects=()), False)
+        expect("box 30 m ahead, visibleDistance 20", ego.canSee(far, occludingObjects=()), False)
+        expect("box 80 degrees to the side, view angle 90", ego.canSee(side, occludingObjects=()), False)
+        expect("box ahead behind a 6 x 6 screen", ego.canSee(ahead, occludingObjects=(blocker,)), False)
+        expect("box ahead, screen off to the side", ego.canSee(ahead, occludingObjects=(beside,)), True)
+    return (not bad, "; ".join(bad), cases)
+
+
 def obligations(tier, seed):
     import scenic.core.object_types as OT
     import scenic.core.visibility as V
@@ -318,6 +370,8 @@ def obligations(tier, seed):
         Obligation("occlusion-monotone", h_occlusion, "occluders only remove visibility; pre-filter sound",
                    {"occluders": 2, "hits": "1+1 symbolic hit points", "viewer/target": "concrete, 5 apart", "visibleDistance": "symbolic"}, [V.canSee], mm + ["trimesh ray query: symbolic hit lists"], opts=o),
     ]
+    obs.append(Obligation("object-targets[ground]", None, "auxiliary concrete check of the ray-casting branch on configurations with an analytic answer (wall abeam, boxes ahead/behind/beyond range, occluder between/beside)",
+                          {"viewers": 3, "view angles": 2}, [V.canSee], ["not solver-decided: the object branch is vectorised numpy + trimesh ray queries"], ground=g_object_targets))
     import scenic.syntax.veneer as VV
 
     for tk in ("vector", "tuple", "point"):
